@@ -4,6 +4,7 @@
   untouched (x + 0 = x and x / 1 = x in the float model, Lemmas/FloatExact.lean).
 -/
 import CharsetProof.Props.C13
+import CharsetProof.Lemmas.CharsLeNow
 import CharsetProof.Props.C04e
 import CharsetProof.Lemmas.Single
 set_option linter.unusedSectionVars false
@@ -71,7 +72,6 @@ theorem nn_of_le_one {x : F32} (h : Le x 1) : NN x := le_nn good32 h (by decide)
     `coherence_ratio` lists it, and `coherence()` is the best score. -/
 theorem C19_single_chunk_full (menv : Md.MdEnv) (cenv : Coh.CohEnv) (o : Oracle)
     (henv : ∀ c x, x ∈ cenv.lower c → x < 0x110000)
-    (hchars : ∀ e x t, (worldFull menv cenv o).decode e x = .ok (some t) → t.length ≤ x.length)
     {b : Bytes} {s : Settings} {incl excl : List Name}
     (hincl : canonList ianaNow s.incl = .ok incl) (hexcl : canonList ianaNow s.excl = .ok excl)
     (hfit : Fits b s) (hthr : s.thr.isNaN = false)
@@ -101,7 +101,7 @@ theorem C19_single_chunk_full (menv : Md.MdEnv) (cenv : Coh.CohEnv) (o : Oracle)
     have hpay : p.payload = some t0 := by rw [hp4 hl, ht]
     have hlen : t0.length ≤ (ctxOf tablesNow b s).chunk := by
       rw [hctx.2]
-      have := hchars _ _ _ hdec
+      have := hchars_full menv cenv o _ _ _ f.supported hdec
       simp only [List.length_drop] at this
       have hbb : (ctxOf tablesNow b s).b = b := rfl
       rw [hbb] at this
